@@ -122,7 +122,7 @@ def check_one(case, ctx, deep):
     # -- duplication
     intents = {c[1] for c in base['concepts']}
     extents = {c[0] for c in base['concepts']}
-    rows_to_dup = range(n) if (deep or n <= 3) else [rnd.randrange(n)]
+    rows_to_dup = range(n) if (n <= 3 or (deep and n <= 8)) else sorted({rnd.randrange(n) for _ in range(3 if deep else 1)})
     for i in rows_to_dup:
         qq = lambda: {'table': plain, 'transform': 'dup-row', 'row': i}
         ctx.case(qq, big, ('dup-row',))
@@ -132,7 +132,7 @@ def check_one(case, ctx, deep):
         got = observe(ctx, qq, o2, p, b2, 'dup-row/')
         ctx.check({c[1] for c in got['concepts']} == intents and got['n'] == base['n'], 'dup-row', qq,
                   lambda: f'copy of row {i} changed the family of intents or the count ({got["n"]} vs {base["n"]})')
-    cols_to_dup = range(m) if (deep or m <= 3) else [rnd.randrange(m)]
+    cols_to_dup = range(m) if (m <= 3 or (deep and m <= 8)) else sorted({rnd.randrange(m) for _ in range(3 if deep else 1)})
     for j in cols_to_dup:
         qq = lambda: {'table': plain, 'transform': 'dup-col', 'col': j}
         ctx.case(qq, big, ('dup-col',))
@@ -159,7 +159,7 @@ def check_one(case, ctx, deep):
 
 def plan(tier, seed):
     return tablecheck.plan(tier, seed, quick_cells=10, thorough_cells=14, thorough_shapes=(), thorough_multisets=(),
-                           hyp_quick=(14, 40), hyp_thorough=(16, 500), profiles=('small', (8, 8)))
+                           hyp_quick=(14, 40), hyp_thorough=(16, 500), profiles=('small', (8, 8)), wide=True)
 
 
 def run(task, ctx):
